@@ -63,6 +63,9 @@ def run(ctx, n=None):
         if rec["impl"] is None:
             violations.append({"sig": "probe-crash", "what": "probe produced no result: %r" % (rec.get("impl_crash"),), "files": rec["files"]})
             continue
+        if rec.get("emit_diff") and len(corr_fail) < 10:
+            corr_fail.append({"op": "emit", "files": rec["files"], "impl": rec["emit_diff"].get("impl"), "model": rec["emit_diff"].get("model"), "at": rec["emit_diff"].get("at")})
+        dist["constructors_reparsed"] = dist.get("constructors_reparsed", 0) + ("emit_diff" in rec)
         d = behave.compare_script(rec["impl"], rec["model"]) if rec["model"] is not None else []
         for x in d[:1]:
             if len(corr_fail) < 10:
